@@ -9,6 +9,24 @@ CLAIMED = {
     "C01": ("batch", "differential PBT: rapid-generated grammars+inputs, real generated parsers vs. reference PEG interpreter",
             "Bounded generated search: rapid draws well-formed grammars (all pure expression kinds, nested) and inputs; every grammar is compiled by the real pigeon under two flag sets and each Parse result (success, consumed prefix, deep value shape) is compared with an independent reference interpreter. Exploration is the right level: the property quantifies over grammars x inputs x flags, which only sampling with a strong oracle reaches.",
             "Trusted: the reference interpreter refpeg (independent of pigeon), the Go toolchain. Bounds: grammars <= ~60 nodes, inputs <= 48 bytes.", "DESIGN.md 3/C01"),
+    "C02": ("batch", "differential PBT: complete code-block event traces of generated parsers vs. reference interpreter",
+            "Bounded generated search over grammars with labels/actions/predicates/state blocks at every nesting level and inputs biased to newlines and multi-byte runes; the complete ordered event trace (text, pos, labels, predicate answers) of every real parse is compared with the reference trace.",
+            "Trusted: refpeg, the recorder vrt. Known finding KF-C02-STALECTX is tolerated field-wise (exact stale pattern only) and counted.", "DESIGN.md 3/C02"),
+    "C05": ("batch", "model-based PBT: state store of generated parsers vs. transactional reference store, observed at every code block",
+            "Bounded generated search over grammars with state blocks at arbitrary positions (histories of state changes followed by failures); the store seen by every subsequent code block is compared with a value-semantics transactional model; Cloner values mutated in place included.",
+            "Trusted: refpeg's store model, vrt.CList as Cloner.", "DESIGN.md 3/C05"),
+    "C11": ("batch", "fault-injection PBT: rapid-drawn fault plans (errors/panics at n-th invocation) vs. reference error model",
+            "Bounded generated search over grammars x inputs x fault plans x Recover modes; exact error list, types, Inner identity, positions, rule prefixes, panic containment/propagation compared with the reference.",
+            "Trusted: refpeg's error model (positions, innermost rule, de-duplication).", "DESIGN.md 3/C11"),
+    "C12": ("batch", "differential PBT: farthest-failure message of generated parsers vs. reference failure-event model",
+            "Bounded generated search over grammars without code and failing inputs; the single no-match error (offset, line:col, sorted expected set with inverted entries and EOF) is compared with the reference.",
+            "Trusted: refpeg's failure-event accounting. Known finding KF-C12-NLSTART tolerated by exact pattern.", "DESIGN.md 3/C12"),
+    "C14": ("batch", "differential PBT: throw/recover grammars, generated parsers vs. reference dynamic handler stack",
+            "Bounded generated search over grammars with nested recovery operators and throws; success, consumed prefix, value and code-block trace compared with the reference's handler-stack semantics.",
+            "Trusted: refpeg's handler stack model.", "DESIGN.md 3/C14"),
+    "C17": ("batch", "differential PBT: invalid UTF-8 byte strings, both AllowInvalidUTF8 modes, vs. reference width-1 U+FFFD decoding",
+            "Bounded generated search over byte strings with injected invalid sequences x grammars x both modes; values, action text/pos and the complete invalid-encoding error list compared with the reference.",
+            "Trusted: refpeg's advance model. Known finding KF-C17-FFFD-EOF excluded by an oracle-side predicate.", "DESIGN.md 3/C17"),
 }
 
 NOT_YET = {
